@@ -90,10 +90,15 @@ def joinBlank : List (List Nat) → List Nat
   | [w] => w
   | w :: ws => w ++ 32 :: joinBlank ws
 
-/-- subject of `_ctparse`: words of the label-free text (split on `[\s-]+`) that are not a word of any
+/-- the words of the token texts, split exactly like the words of the text (repaired, DESIGN §8 D30: they used to be split
+    on blanks only, so `14` of the match `14-12-2020` was not recognised as used) -/
+def usedWords (tokenTexts : List (List Nat)) : List (List Nat) :=
+  tokenTexts.flatMap fun t => (reSplit (reLit "_ctparse" "split") t).filter fun w => !w.isEmpty
+
+/-- subject of `_ctparse`: words of the label-free text (split on `[\s-]+`) that are not a word (same splitting) of any
     token text of the initial stack -/
 def subjectOf (txt : List Nat) (tokenTexts : List (List Nat)) : List Nat :=
-  let used := tokenTexts.flatMap splitWs
+  let used := usedWords tokenTexts
   let raw := reSplit (reLit "_ctparse" "split") txt
   joinBlank (raw.filter fun w => !used.contains w)
 
